@@ -367,7 +367,8 @@ Definition attempt_send (sflags : sflag) (now : Z) : M unit :=
   s <- get ;;
   when (time_diff now (lastsend s) >? rx_rto s) (upd (fun s => s <| cwnd := mss s |>)) ;;;
   s <- get ;;
-  attempt_send_loop (100 + length (slist s) + Z.to_nat (sb_buffered s / Z.max 1 (mss s / 4)))%nat sflags now.
+  (* fuel: every iteration sends at least min(mss) / 4 bytes or stops; mss may shrink down to 180 (296 - overhead) inside the loop *)
+  attempt_send_loop (100 + length (slist s) + Z.to_nat (sb_buffered s / 40))%nat sflags now.
 
 Definition closedown (err : Z) (local : bool) (now : Z) : M unit :=
   s <- get ;;
